@@ -93,6 +93,12 @@ type Footer struct {
 // higher snapshot may be nil.
 func (s *Store) persist(higher Snapshot, persistOptions StorePersistOptions) (
 	Snapshot, error) {
+	if s.isClosed() {
+		// A closed store has no footer to build on: a round started now
+		// would begin a new file that holds nothing but its own data.
+		return nil, ErrClosed
+	}
+
 	wasCompacted, err := s.compactMaybe(higher, persistOptions)
 	if err != nil {
 		return nil, err
@@ -176,9 +182,16 @@ func (s *Store) persist(higher Snapshot, persistOptions StorePersistOptions) (
 	}
 
 	verifAt("store.persist.footer", s)
-	footer.AddRef() // One ref-count will be held by the store.
 
 	s.m.Lock()
+	if s.refs <= 0 {
+		// The store was closed while this round was in flight; nobody
+		// would ever release a footer installed now.
+		s.m.Unlock()
+		footer.DecRef()
+		return onError(ErrClosed)
+	}
+	footer.AddRef() // One ref-count will be held by the store.
 	prevFooter := s.footer
 	s.footer = footer
 	s.totPersists++
@@ -280,6 +293,10 @@ func (s *Store) startOrReuseFile() (
 	fref *FileRef, file File, started bool, err error) {
 	s.m.Lock()
 	defer s.m.Unlock()
+
+	if s.refs <= 0 {
+		return nil, nil, false, ErrClosed // No footer to tell the file from.
+	}
 
 	if s.footer != nil {
 		slocs, _ := s.footer.segmentLocs()
